@@ -108,6 +108,11 @@ impl Settings {
         !has_received
     }
 
+    /// Returns true if a received SETTINGS frame has not been acknowledged yet.
+    pub(crate) fn is_ack_pending(&self) -> bool {
+        self.remote.is_some()
+    }
+
     pub(crate) fn poll_send<T, B, C, P>(
         &mut self,
         cx: &mut Context,
